@@ -37,8 +37,14 @@ fn ref_cmp(a: &RV, b: &RV) -> Option<Ordering> {
     }
 }
 
+/// Equality for the dedup reference: containers structurally in the harness (same keys / same
+/// length, members equal), everything else as the comparison reference of C06 does.
 fn ref_eq(a: &RV, b: &RV) -> bool {
-    crate::interp::compare(a, "==", b).unwrap_or(false)
+    match (a, b) {
+        (RV::Obj(x), RV::Obj(y)) => x.len() == y.len() && x.iter().all(|(k, v)| y.iter().any(|(k2, v2)| k == k2 && ref_eq(v, v2))),
+        (RV::Arr(x), RV::Arr(y)) => x.len() == y.len() && x.iter().zip(y).all(|(p, q)| ref_eq(p, q)),
+        _ => crate::interp::compare(a, "==", b).unwrap_or(false),
+    }
 }
 
 fn show(r: &lq::R<RV>) -> String {
